@@ -62,6 +62,11 @@ type verifScn struct {
 	// fault injection (C08): returns true when the handler call must fault
 	faultHook func(name string) bool
 	faultNow  bool
+	// handler goroutine bookkeeping (C08): every `go m.handlerLoop()` is a pending task that is never run (the
+	// loop is served inline); a delivered fault kills one loop. A handler call while no loop is alive blocks the
+	// real machine forever on handlerStart.
+	loopsDied int
+	wedged    bool
 	// traceHook is called from every transition tracer hook (init, start, finals, end)
 	traceHook func(kind string)
 	// eventHook is called with the event of every handler call
@@ -143,6 +148,9 @@ func (s *verifScn) bindAll(vetoOK, withException bool) {
 	}
 	s.m.HandlersBindMaps(negs, fins)
 	vServe(s.m.handlerStart, func(call *handlerCall) {
+		if vSymbolic() && vPendingTasks()-s.loopsDied < 1 {
+			s.wedged = true
+		}
 		ret := false
 		if call.event.IsValid() {
 			ret = call.Exec()
@@ -150,6 +158,7 @@ func (s *verifScn) bindAll(vetoOK, withException bool) {
 		if s.faultNow {
 			// what handlerLoop's deferred catch does after a real panic
 			s.faultNow = false
+			s.loopsDied++
 			vReply(s.m.handlerPanic, recoveryData{err: "verif fault", event: call.event})
 			return
 		}
